@@ -69,7 +69,7 @@ func VerifC18_Structure() {
 }
 
 var vPatterns = []string{
-	"a", "abc", "[a-z]+", "\\d{2,3}", "(a|b)c", "^x$", "a\\/b", "\\\\", "[0-9A-F]{4}", "a.c", "x*", "(?i)ab", "\\w+@\\w+",
+	"a", "abc", "a{2}", "ab{1,2}c", "x{3}y", "a\\.b", "\"", "[a-z]+", "\\d{2,3}", "(a|b)c", "^x$", "a\\/b", "\\\\", "[0-9A-F]{4}", "a.c", "x*", "(?i)ab", "\\w+@\\w+",
 	"(", ")", "[a", "a{2,1}", "*", "\\", "(?P<n>", "a**", "[z-a]",
 }
 
